@@ -199,6 +199,13 @@ def ctor_record(idx: ProgramIndex, cls: ClassInfo) -> CtorRecord:
                     if isinstance(t, ast.Attribute) and isinstance(t.value, ast.Name) and t.value.id == self_name:
                         rec.attr_sources.setdefault(t.attr, set()).update(expr_deps(n.value, deps))
                         rec.attr_exprs.setdefault(t.attr, norm(n.value))
+                    elif isinstance(t, (ast.Tuple, ast.List)):
+                        # self.a, self.b = helper(x, y) / = (x, y): every attribute derives from what the value derives from
+                        for k_, el in enumerate(t.elts):
+                            if isinstance(el, ast.Attribute) and isinstance(el.value, ast.Name) and el.value.id == self_name:
+                                v_el = n.value.elts[k_] if isinstance(n.value, (ast.Tuple, ast.List)) and len(n.value.elts) == len(t.elts) else n.value
+                                rec.attr_sources.setdefault(el.attr, set()).update(expr_deps(v_el, deps))
+                                rec.attr_exprs.setdefault(el.attr, norm(v_el))
         if fn.cls is base:
             # reached LinearOperator.__init__(self, *args, **kwargs): env describes _args / _kwargs
             break
